@@ -17,16 +17,19 @@ CHECKS = {
     "C02": {"level": "exploration", "stages": [("e1", "C02", 40000, 1500000, {}), ("e2", "C02", 4000, 150000, {})]},
     "C03": {"level": "exploration", "stages": [("e1", "C03", 40000, 1500000, {}), ("e2", "C03", 4000, 150000, {})]},
     "C04": {"level": "exploration", "stages": [("e1", "C04", 40000, 1500000, {})]},
-    "C07": {"level": "exploration", "stages": [("e1", "C07", 30000, 1000000, {}), ("e3", "C07", 20000, 600000, {})]},
+    "C07": {"level": "exploration", "stages": [("e1", "C07", 60000, 1500000, {}), ("e3", "C07", 20000, 600000, {})]},
     "C08": {"level": "exploration", "stages": [("e1", "C08", 30000, 1000000, {})]},
     "C09": {"level": "exploration", "stages": [("e3", "C09", 40000, 1500000, {}), ("e1", "C09", 20000, 600000, {})]},
     "C10": {"level": "exploration", "stages": [("e1", "C10", 20000, 700000, {})]},
     "C13": {"level": "exploration", "stages": [("e1c13", "C13", 20000, 700000, {})]},
+    "C15": {"level": "exploration", "stages": [("e4", "C15", 0, 0, {})]},
     "C16": {"level": "exploration", "stages": [("e1", "C16", 30000, 1000000, {}), ("e3", "C16", 20000, 600000, {})]},
     "C17": {"level": "exploration", "stages": [("e1", "C17", 30000, 1000000, {}), ("e2", "C17", 4000, 150000, {})]},
     "C11": {"level": "exploration", "stages": [("e2", "C11", 8000, 300000, {})]},
     "C12": {"level": "exploration", "stages": [("e2", "C12", 8000, 300000, {})]},
     "C18": {"level": "fault_enumeration", "stages": [("e2", "C18", 1500, 60000, {})]},
+    "C19": {"level": "fault_enumeration", "stages": [("e5", "C19", 0, 0, {})]},
+    "C20": {"level": "exploration", "stages": [("e6", "C20", 0, 0, {})]},
 }
 
 REAL_VS_STUB = {
@@ -193,12 +196,17 @@ def main(argv=None):
     for fam, focus, rq, rt, params in spec["stages"]:
         if args.stage and args.stage != fam:
             continue
-        runs = args.runs if args.runs else (rq if tier == "quick" else rt)
         params = dict(params)
         params["known"] = kparams
         params["tier"] = tier
+        fmod = runner.family(fam)
+        runs = args.runs if args.runs else (rq if tier == "quick" else rt)
+        if not runs:
+            runs = fmod.n_runs(tier)
+        if hasattr(fmod, "prepare"):
+            fmod.prepare(params)
         st0 = time.time()
-        tot = runner.run_batch(fam, focus, params, seed, runs, args.jobs, deadline)
+        tot = runner.run_batch(fam, focus, params, seed, runs, args.jobs, deadline, chunk=getattr(fmod, "CHUNK", 25))
         tot["family"] = fam
         tot["wall"] = time.time() - st0
         totals.append(tot)
@@ -221,7 +229,16 @@ def main(argv=None):
                 continue
             reported.add(cls)
             bad = dict(bad, violations=unknown)
-            best, final, vs, evals = runner.minimise(fam, focus, params, bad, max_evals=300 if tier == "quick" else 800,
+            if getattr(fmod, "ENUMERATED", False):
+                # enumerated points: nothing to minimise; the replay is the recorded point, re-executed once
+                best = bad["trace"]
+                final = runner.execute(fam, focus, params, trace=best)
+                vs = [v for v in final["violations"] if v["property"] == focus]
+                evals = 1
+                if not vs:
+                    vs = unknown
+            else:
+                best, final, vs, evals = runner.minimise(fam, focus, params, bad, max_evals=300 if tier == "quick" else 800,
                                                         max_seconds=45.0 if tier == "quick" else 240.0)
             v = vs[0] if vs else unknown[0]
             payload = runner.replay_payload(fam, focus, params, bad["seed"], bad["run"], best, final, vs, tier)
